@@ -80,9 +80,7 @@ func (d Decryptor) Decrypt(ct *Ciphertext, pt *Plaintext) {
 		}
 	}
 
-	if (ct.Degree())&7 != 7 {
-		ringQ.Reduce(pt.Value, pt.Value)
-	}
+	ringQ.Reduce(pt.Value, pt.Value)
 
 	if !ct.IsNTT {
 		ringQ.INTT(pt.Value, pt.Value)
